@@ -215,6 +215,22 @@ func helperFacts(w *World, info *types.Info, cond ast.Expr, truth bool, depth in
 			return append(helperFacts(w, info, x.X, truth, depth), helperFacts(w, info, x.Y, truth, depth)...)
 		}
 	case *ast.CallExpr:
+		// a locally bound predicate literal: selected := func(d *Descriptor) bool { return … }
+		if id, ok := unparen(x.Fun).(*ast.Ident); ok && callee(info, x) == nil {
+			if ps := litPredicateSummary(w, info, info.Uses[id], depth); ps != nil && ps.initialised {
+				src := ps.whenFalse
+				if truth {
+					src = ps.whenTrue
+				}
+				var out []string
+				for k := range src {
+					if t, ok := renameFact(k, ps, x); ok {
+						out = append(out, t)
+					}
+				}
+				return out
+			}
+		}
 		if cal := callee(info, x); cal != nil {
 			if ps := predicateSummary(w, cal, depth); ps != nil && ps.initialised {
 				src := ps.whenFalse
@@ -270,4 +286,83 @@ func killOnAssign(info *types.Info, n ast.Node) []string {
 		add(s)
 	}
 	return kill
+}
+
+var litPredCache = map[types.Object]*predSummary{}
+
+// litPredicateSummary: like predicateSummary, for a variable that is bound once
+// to a function literal returning a single bool.
+func litPredicateSummary(w *World, info *types.Info, o types.Object, depth int) *predSummary {
+	if o == nil || depth <= 0 {
+		return nil
+	}
+	if ps, ok := litPredCache[o]; ok {
+		return ps
+	}
+	litPredCache[o] = nil
+	// find the package and the binding
+	var lit *ast.FuncLit
+	var pkgInfo *types.Info
+	for _, p := range w.Pkgs {
+		if p.TypesInfo != info {
+			continue
+		}
+		pkgInfo = p.TypesInfo
+		n := 0
+		for _, f := range p.Syntax {
+			if f.Pos() > o.Pos() || o.Pos() > f.End() {
+				continue
+			}
+			ast.Inspect(f, func(x ast.Node) bool {
+				if as, ok := x.(*ast.AssignStmt); ok && len(as.Lhs) == len(as.Rhs) {
+					for i, l := range as.Lhs {
+						if objOf(info, l) == o {
+							n++
+							if fl, ok := unparen(as.Rhs[i]).(*ast.FuncLit); ok {
+								lit = fl
+							}
+						}
+					}
+				}
+				return true
+			})
+		}
+		if n != 1 {
+			lit = nil
+		}
+	}
+	if lit == nil || pkgInfo == nil {
+		return nil
+	}
+	if lit.Type.Results == nil || len(lit.Type.Results.List) != 1 {
+		return nil
+	}
+	ps := &predSummary{}
+	for _, fl := range lit.Type.Params.List {
+		for _, nm := range fl.Names {
+			ps.params = append(ps.params, nm.Name)
+		}
+	}
+	fl := newFlowInfo(info, lit.Body)
+	fl.W = w
+	sol := fl.Solve(Spec{Must: true, Edge: condEdge(w, info, depth-1)})
+	for _, ex := range fl.Exits() {
+		if ex.Ret == nil || len(ex.Ret.Results) != 1 {
+			continue
+		}
+		val := exprStr(unparen(ex.Ret.Results[0]))
+		at := sol.AtExit(ex)
+		switch val {
+		case "true":
+			ps.whenTrue = meet(ps.whenTrue, at)
+		case "false":
+			ps.whenFalse = meet(ps.whenFalse, at)
+		default:
+			ps.whenTrue = meet(ps.whenTrue, withFacts(at, condFacts(info, ex.Ret.Results[0], true)))
+			ps.whenFalse = meet(ps.whenFalse, withFacts(at, condFacts(info, ex.Ret.Results[0], false)))
+		}
+	}
+	ps.initialised = true
+	litPredCache[o] = ps
+	return ps
 }
